@@ -178,6 +178,13 @@ Proof.
   replace (Nat.min n (List.length ls - skip) =? n) with false; [reflexivity|].
   symmetry. apply Nat.eqb_neq. lia.
 Qed.
+(* ORCA .hess files (commit d8ad5dc): a file without its closing "$end" line - every file cut inside
+   or right after the Hessian block, also in the middle of a number - is CouldNotGetProperty;
+   with the "$end" line the block is parsed by the rule above *)
+Theorem orca_hess_requires_end :
+  forall (A : Type) (R : nat) (ls : list (list A)),
+    orca_hess_file false R ls = ErrProperty /\ orca_hess_file true R ls = orca_parse R ls.
+Proof. intros. split; reflexivity. Qed.
 Example truncation_example :
   qchem_parse 3 (firstn 6 (qchem_lines 2 [[1;2;3];[4;5;6];[7;8;9]])) = ErrProperty /\
   orca_parse 3 (firstn 7 (orca_lines 0 2 [[1;2;3];[4;5;6];[7;8;9]])) = ErrShape.
